@@ -364,3 +364,13 @@ Theorem macroexpand_translate f args k :
   translate_code (convert_macroexpand (EMacroExpand f args)) k
   = translate_stage0 (EApply (convert_macroexpand f) (map convert_macroexpand args)) k.
 Proof. reflexivity. Qed.
+
+(* ---------- refutation (finding F20): a record pattern of a quoted let is not preserved ---------- *)
+
+(* let {a = x, b = y} = r; x   inside a quotation is generated as   let a = r; x   (x, y no longer bound) *)
+Theorem record_pattern_lost :
+  let p := PRecord [("a", PSingle "x"); ("b", PSingle "y")] in
+  let e := ELet p ty_unknown (EVar "r") (Some (EVar "x")) in
+  pat_binders p = ["x"; "y"] /\
+  expand 1 0 (EBracket e) = Ok (ELet (PSingle "a") ty_unknown (EVar "r") (Some (EVar "x"))).
+Proof. split; [reflexivity | vm_compute; reflexivity]. Qed.
